@@ -21,3 +21,5 @@ CONSTANTS
   Spellings = {"canon", "cap", "upper", "mixed"}
   MaskDecoded = TRUE
   ReadFailIsError = FALSE
+  Shapes = {"plain"}
+  RejectQuotesValue = FALSE
